@@ -3,7 +3,8 @@
    store (proved for every genesis store: genesis_inv), [wf_hist] (the trie-layer premise on the node sets, see Crash/ProofsImport.v). *)
 From Coq Require Import List NArith Bool.
 From Verif Require Import Crash.Model Crash.ProofsStore Crash.ProofsInv Crash.ProofsImport Crash.ProofsCrash Crash.Examples
-  Crash.ProofsEqv Crash.ProofsShape Crash.ProofsResumeAll Crash.ProofsOrphans Crash.ProofsResume.
+  Crash.ProofsEqv Crash.ProofsShape Crash.ProofsResumeAll Crash.ProofsOrphans Crash.ProofsResume
+  Crash.ProofsFinalized Crash.ProofsQuality Crash.ProofsCatchUp Crash.ExamplesCatchUp.
 Import ListNotations.
 Open Scope N_scope.
 
@@ -69,7 +70,7 @@ Proof. exact resume_diverges_exactly_at_f6_cuts. Qed.
    stream from block i the store is EQUIVALENT (same value under every key) to the uninterrupted run's — except when the cut
    lies between the quality record and the finalized record of block i: then the restarted store agrees with the completed
    import on every key but the finalized record, which still holds the previous value (the lag the property tolerates
-   "until one further epoch has committed"; that catching-up is checked on the real code, not proved). *)
+   "until one further epoch has committed"; the catching-up is resume_catches_up below). *)
 Theorem resume_converges_except c s0 hist k i :
   wf_cfg2 c -> Inv2 c s0 -> wf_hist c s0 hist -> cut_in_import c s0 hist k i ->
   exists r, resume c true (crash c s0 hist k) (skipn i hist) = Some r /\
@@ -115,6 +116,85 @@ Example with_repair_every_cut_of_the_example_converges :
   length (writes_of ex_cfg ex_s0 ex_hist) = 28%nat /\
   option_map (finalized ex_cfg) (resume ex_cfg true (crash ex_cfg ex_s0 ex_hist 27) []) = Some (bid 2 2).
 Proof. exact resume_converges_on_example. Qed.
+
+(* ---- "... and to the same finalized checkpoint once one further epoch has committed" (the exception above, closed).
+   Additional hypotheses: InvQ of the initial store (every stored store-point block's quality record = the record of the
+   previous epoch's store point on its chain + 1 if its epoch is justified; the finalized block is the first block of an
+   epoch — both hold for every genesis store and are kept by every import), and [no_bft_reject]: no block of the stream is
+   refused by the uninterrupted node's finality check (errBFTRejected).
+   For EVERY history and EVERY cut: the resumed store agrees with the uninterrupted run's under every key except possibly
+   the finalized record; the finalized block it holds is the uninterrupted node's or an ancestor of it; and if the
+   uninterrupted node's finalized block after the whole stream differs from the one it had right after the interrupted
+   import (= a further epoch has committed), the two stores are equivalent under EVERY key.  Since the history is
+   universally quantified this holds at every later point of the stream as well. *)
+Theorem resume_catches_up c s0 hist k i :
+  wf_cfg2 c -> Inv2 c s0 -> InvQ c s0 -> wf_hist c s0 hist -> no_bft_reject c s0 hist = true ->
+  cut_in_import c s0 hist k i ->
+  exists r, resume c true (crash c s0 hist k) (skipn i hist) = Some r /\
+    Lag c r (run c s0 hist) /\
+    (finalized c (run c s0 hist) <> finalized c (run c s0 (firstn (S i) hist)) -> eqv r (run c s0 hist)).
+Proof. exact (ProofsCatchUp.resume_catches_up c s0 hist k i). Qed.
+
+(* the same in terms of the observations: best block, stored set, quality records (vote tallies) always; the finalized
+   block is an ancestor-or-equal, and equal once the uninterrupted node's has moved *)
+Theorem resume_catches_up_observations c s0 hist k i :
+  wf_cfg2 c -> Inv2 c s0 -> InvQ c s0 -> wf_hist c s0 hist -> no_bft_reject c s0 hist = true ->
+  cut_in_import c s0 hist k i ->
+  exists r, resume c true (crash c s0 hist k) (skipn i hist) = Some r /\
+    let u := run c s0 hist in
+    get_id r KBest = get_id u KBest /\ (forall id, stored r id = stored u id) /\
+    (forall id, get_quality r id = get_quality u id) /\
+    anc u (finalized c u) (num_of (finalized c r)) = Some (finalized c r) /\
+    (finalized c u <> finalized c (run c s0 (firstn (S i) hist)) -> finalized c r = finalized c u).
+Proof. exact (ProofsCatchUp.resume_catches_up_observations c s0 hist k i). Qed.
+
+(* one import on a lagging and an up-to-date store: the relation is kept, and the import that moves the up-to-date node's
+   finalized block makes the stores equivalent (the step the theorem above iterates) *)
+Theorem lagging_import_step c r u b : wf_cfg2 c -> Inv2 c u -> InvQ c u -> wf_blk u b -> Lag c r u ->
+  bft_rejected c u b = false ->
+  Lag c (run1 c r b) (run1 c u b) /\
+  (finalized c (run1 c u b) <> finalized c u -> eqv (run1 c r b) (run1 c u b)).
+Proof. exact (lag_step c r u b). Qed.
+
+(* findCheckpointByQuality over a chain whose records obey the recurrence: the first block of the least epoch, from the
+   finalized one on, whose store-point quality reaches the target, provided it equals the target (sort.Search is correct
+   because the qualities never decrease along a chain) *)
+Theorem find_checkpoint_is_least_epoch c s head E t fin e0 f :
+  wf_cfg c -> Inv c s -> Qrec c s -> stored s head = true -> num_of head = E * c_L c + c_L c - 1 ->
+  num_of fin = e0 * c_L c -> e0 <= E ->
+  (find_checkpoint c s t fin head = Some f <->
+   exists e, e0 <= e <= E /\ Qe c s head e = t /\ (forall e', e0 <= e' < e -> Qe c s head e' < t) /\
+             anc s head (e * c_L c) = Some f).
+Proof. exact (fun Hc I Q Hs HE => find_checkpoint_spec c s head E Hc I Q Hs HE t fin e0 f). Qed.
+
+Theorem run_keeps_invq c l s : wf_cfg2 c -> Inv2 c s -> InvQ c s -> wf_hist c s l -> InvQ c (run c s l).
+Proof. exact (run_invq c l s). Qed.
+Theorem genesis_store_invq L g : 1 < L -> num_of (b_id g) = 0 -> InvQ (mkCfg L (b_id g)) (genesis_store g).
+Proof. exact (genesis_invq L g). Qed.
+
+(* non-vacuity: the example history meets the hypotheses; cut 19 is the cut between the quality record and the finalized
+   record of block 5; the uninterrupted node's finalized block moves afterwards (block 2 -> block 4), so the theorem's
+   last clause applies, and the resumed node indeed ends with block 4 *)
+Example catch_up_hypotheses_met :
+  wf_cfg2 ex_cfg /\ Inv2 ex_cfg ex_s0 /\ InvQ ex_cfg ex_s0 /\ wf_hist ex_cfg ex_s0 ex_hist /\
+  no_bft_reject ex_cfg ex_s0 ex_hist = true /\
+  cut_in_import ex_cfg ex_s0 ex_hist 19 4 /\
+  has (crash ex_cfg ex_s0 ex_hist 19) (KQuality (bid 5 5)) = true /\
+  finalized ex_cfg (crash ex_cfg ex_s0 ex_hist 19) = bid 0 7 /\
+  finalized ex_cfg (run ex_cfg ex_s0 (firstn 5 ex_hist)) = bid 2 2 /\
+  finalized ex_cfg (run ex_cfg ex_s0 ex_hist) = bid 4 4 /\
+  option_map (finalized ex_cfg) (resume ex_cfg true (crash ex_cfg ex_s0 ex_hist 19) (skipn 4 ex_hist)) = Some (bid 4 4).
+Proof. exact (conj ex_wf_cfg2 (conj ex_inv2 (conj ex_invq (conj ex_wf_hist (conj ex_no_reject ex_window_cut))))). Qed.
+
+(* the premise no_bft_reject is needed: a sibling of block 2 delivered after block 5 is refused by the uninterrupted node
+   (it has finalized block 2) and stored by the node restarted from cut 19 (it still holds genesis as finalized) *)
+Example catch_up_premise_needed :
+  wf_hist ex_cfg ex_s0 ex_hist_fork /\
+  cut_in_import ex_cfg ex_s0 ex_hist_fork 19 4 /\
+  no_bft_reject ex_cfg ex_s0 ex_hist_fork = false /\
+  stored (run ex_cfg ex_s0 ex_hist_fork) (bid 2 9) = false /\
+  option_map (fun r => stored r (bid 2 9)) (resume ex_cfg true (crash ex_cfg ex_s0 ex_hist_fork 19) (skipn 4 ex_hist_fork)) = Some true.
+Proof. exact (conj ex_fork_wf_hist ex_fork_diverges). Qed.
 
 (* ---- value consistency and orphans_harmless.
    [key_ver k] is the (number, conflicts) version a key is stamped with (trie nodes, transactions, receipts, tx-index entries).
@@ -196,6 +276,14 @@ Print Assumptions import_reads_no_node_or_code.
 Print Assumptions run_keeps_inv2.
 Print Assumptions genesis_store_inv2.
 Print Assumptions resume_hypotheses_met.
+Print Assumptions resume_catches_up.
+Print Assumptions resume_catches_up_observations.
+Print Assumptions lagging_import_step.
+Print Assumptions find_checkpoint_is_least_epoch.
+Print Assumptions run_keeps_invq.
+Print Assumptions genesis_store_invq.
+Print Assumptions catch_up_hypotheses_met.
+Print Assumptions catch_up_premise_needed.
 Print Assumptions every_cut_satisfies_inv3.
 Print Assumptions import_never_rewrites_stored_version.
 Print Assumptions run_keeps_stored_data.
